@@ -1097,6 +1097,34 @@ fn blame_hang(rep: &RunReport, live: Live, out: &mut Vec<Violation>, verdict: &m
             }
         }
 
+        // 2b. an item that a pipe is processing inside the object (polled by the object's own queue, like a future_desync), whose
+        // event has fired, and that is never finished: the items behind it are never processed either
+        for (s, st) in world.streams.iter().enumerate().filter(|(_, st)| st.obj == Some(o)) {
+            let Some(pid) = st.pipe_op else { continue };
+            if !st.processed.iter().any(|p| p.2.is_none()) {
+                continue;
+            }
+            let Some(g) = st.item_waiting_gate else { continue };
+            if !world.gates[g].open {
+                continue;
+            }
+            let prop = if ops[pid as usize].kind == Kind::PipeIn { "C11" } else { "C12" };
+            let what = format!("stream {} into object {} (queue state/len/waiters {:?}, pool threads/busy/scheduled/max {:?}): the item being processed waits for gate {}, which has fired, but its processing is never continued: {}", s, o, peek, facts.sched_peek, g, where_);
+            match qstate {
+                Some(0) | Some(1) | Some(5) => {
+                    if pool_available && full {
+                        v(out, prop, "pipe_item_woken_but_not_run", &[pid], 0, what);
+                        props_found += 1;
+                    }
+                }
+                Some(3) | Some(4) => {
+                    v(out, prop, "pipe_item_wake_lost", &[pid], 0, what);
+                    props_found += 1;
+                }
+                _ => {}
+            }
+        }
+
         // 3. nothing inside: is accepted work being left alone?
         if inside.is_empty() {
             let waiting: Vec<&OpRec> = ops
